@@ -144,21 +144,12 @@ Hypothesis WF : tables_wf T = true.
 Lemma map_res_fixed {A} (f : A -> result A) l : Forall (fun y => f y = Ok y) l -> map_res f l = Ok l.
 Proof. induction 1 as [|y l Hy Hl IH]; cbn; [reflexivity|]. now rewrite Hy, IH. Qed.
 
-Lemma is_instance_self v : is_instance T v (class_of v) = true.
-Proof.
-  unfold is_instance, is_subclass. pose proof (class_of_not_any v) as Hn. pose proof (sub_refl_value T WF v) as Hr.
-  destruct (class_of v); try exact Hr; congruence.
-Qed.
-
-Lemma enter_self v : enter T sac (class_of v) v = Ok (class_of v).
-Proof. unfold enter. now rewrite is_instance_self. Qed.
-
 Lemma coerce_basic_idem c v v' : coerce_basic T W sac c v = Ok v' -> coerce_basic T W sac c v' = Ok v'.
 Proof.
   unfold coerce_basic. destruct (is_instance T v c) eqn:E.
   - inversion 1; subst. now rewrite E.
   - destruct (check_coercible T sac v c); [|discriminate]. intros H.
-    apply construct_class in H. destruct H as [<- _]. now rewrite is_instance_self.
+    apply (construct_class T) in H. destruct H as [<- _]. now rewrite (is_instance_self T WF).
 Qed.
 
 (* the None arm of an Optional never converts: it returns its input or raises TypeError *)
@@ -174,7 +165,7 @@ Proof.
   destruct (check_coercible T sac v CNone) as [u|e'] eqn:E; [cbn; now inversion 1|].
   inversion 1; subst. unfold check_coercible in E. destruct (_ && _); [discriminate|].
   unfold check_type_coercible, check_type_coercible_gen in E.
-  assert (forall crit, exists m, matches_criteria T (SCls (class_of v)) CNone crit = Ok m) as Hm.
+  assert (forall crit, exists m, matches_criteria T (SCls (class_of T v)) CNone crit = Ok m) as Hm.
   { induction crit as [|[x y] crit [m Hm]]; cbn; [eauto|]. rewrite Hm. eauto. }
   destruct (cls_eqb _ _); [discriminate|]. destruct (sac && _); [discriminate|].
   destruct (Hm (t_coercible T)) as [m1 E1]. rewrite E1 in E. destruct m1; [|now inversion E].
@@ -190,30 +181,24 @@ Lemma Forall2_fixed {A} (f : A -> result A) l l' :
   (forall x y, f x = Ok y -> f y = Ok y) -> Forall2 (fun x y => f x = Ok y) l l' -> Forall (fun y => f y = Ok y) l'.
 Proof. intros Hf H. eapply Forall2_right; [exact H|]. intros x y _ HR. exact (Hf _ _ HR). Qed.
 
+Lemma enter_inst o v : is_instance T v o = true -> enter T sac o v = Ok true.
+Proof. unfold enter. now intros ->. Qed.
+
 Lemma coerce_seq_idem o f v v' :
   In o [CList; CTuple; CSet; CFrozenset] ->
   (forall x y, f x = Ok y -> f y = Ok y) ->
   coerce_seq T sac o f v = Ok v' -> coerce_seq T sac o f v' = Ok v'.
 Proof.
-  intros Ho Hf. unfold coerce_seq at 1.
-  destruct (enter T sac o v) as [c|] eqn:E; [|discriminate].
-  apply (enter_container T WF) in E; [|cbn in *; tauto]. subst c.
-  destruct (iter v) as [items|]; [|discriminate]. intros H.
-  apply build_items in H. destruct H as [l [Hl Hc]].
+  intros Ho Hf H. apply (coerce_seq_shape T WF) in H.
+  destruct H as [Hi [items [l [_ [Hl [Hs Hh]]]]]].
   apply map_res_ok in Hl. pose proof (Forall2_fixed f items l Hf Hl) as Hfix.
-  pose proof (construct_container_class _ _ _ Hc) as Hcls.
-  unfold coerce_seq. rewrite <- Hcls at 1. rewrite enter_self. rewrite Hcls.
-  destruct Ho as [<-|[<-|[<-|[<-|[]]]]]; cbn in Hc.
-  - inversion Hc; subst. cbn. now rewrite (map_res_fixed f l Hfix).
-  - inversion Hc; subst. cbn. now rewrite (map_res_fixed f l Hfix).
-  - unfold mk_set in Hc. destruct (forallb hashable l) eqn:Eh; [|discriminate]. inversion Hc; subst. cbn.
-    rewrite map_res_fixed.
-    + cbn. unfold mk_set. now rewrite (forallb_dedupe hashable l Eh), dedupe_idem.
-    + rewrite Forall_forall in *. intros y Hy. apply dedupe_incl in Hy. destruct Hy as [Hy|[]]. auto.
-  - unfold mk_set in Hc. destruct (forallb hashable l) eqn:Eh; [|discriminate]. inversion Hc; subst. cbn.
-    rewrite map_res_fixed.
-    + cbn. unfold mk_set. now rewrite (forallb_dedupe hashable l Eh), dedupe_idem.
-    + rewrite Forall_forall in *. intros y Hy. apply dedupe_incl in Hy. destruct Hy as [Hy|[]]. auto.
+  assert (Forall (fun y => f y = Ok y) (stored o l)) as Hfix'.
+  { rewrite Forall_forall in *. intros y Hy. apply Hfix. now apply (stored_incl o l). }
+  unfold coerce_seq. rewrite (enter_inst _ _ Hi).
+  destruct Ho as [<-|[<-|[<-|[<-|[]]]]]; destruct Hs as [k ->]; cbn [iter stored is_setc] in *;
+    rewrite (map_res_fixed f _ Hfix'); cbn [build keep]; try reflexivity.
+  - rewrite (forallb_dedupe hashable l (Hh eq_refl)), dedupe_idem. reflexivity.
+  - rewrite (forallb_dedupe hashable l (Hh eq_refl)), dedupe_idem. reflexivity.
 Qed.
 
 Lemma zip_res_fixed (g : ty -> val -> result val) : forall ts items l,
@@ -232,17 +217,18 @@ Proof.
 Qed.
 
 Lemma coerce_multi_idem f v v' :
-  (forall x y, f x = Ok y -> f y = Ok y) -> coerce_multi f v = Ok v' -> coerce_multi f v' = Ok v'.
+  (forall x y, f x = Ok y -> f y = Ok y) -> coerce_multi T f v = Ok v' -> coerce_multi T f v' = Ok v'.
 Proof.
   intros Hf. unfold coerce_multi at 1.
-  assert (forall r, wrap1 r = Ok v' -> r = f v -> coerce_multi f v' = Ok v') as Hw.
+  assert (forall r, wrap1 r = Ok v' -> r = f v -> coerce_multi T f v' = Ok v') as Hw.
   { intros r Hr ->. destruct (f v) as [x|] eqn:E; [|discriminate]. inversion Hr; subst.
-    unfold coerce_multi. cbn. now rewrite (Hf _ _ E). }
-  destruct (is_vstr v).
+    unfold coerce_multi. rewrite (plain_list_not_vstr T WF). cbn. now rewrite (Hf _ _ E). }
+  destruct (is_vstr T v).
   - intros H. eapply Hw; [exact H|reflexivity].
   - destruct (match iter v with Ok items => map_res f items | Err e => Err e end) as [l|e] eqn:E.
     + inversion 1; subst. destruct (iter v) as [items|]; [|discriminate]. apply map_res_ok in E.
-      unfold coerce_multi. cbn. now rewrite (map_res_fixed f l (Forall2_fixed f items l Hf E)).
+      unfold coerce_multi. rewrite (plain_list_not_vstr T WF). cbn.
+      now rewrite (map_res_fixed f l (Forall2_fixed f items l Hf E)).
     + destruct e; try discriminate. intros H. eapply Hw; [exact H|reflexivity].
 Qed.
 
@@ -254,28 +240,20 @@ Proof.
   - eapply coerce_basic_idem; eassumption.
   - eapply coerce_seq_idem; [cbn; tauto|apply IHa, U|exact H].
   - (* fixed-length tuple *)
-    unfold coerce_tuple in H.
-    destruct (enter T sac CTuple v) as [c|] eqn:E; [|discriminate].
-    apply (enter_container T WF) in E; [|cbn; tauto]. subst c.
-    destruct (iter v) as [items|]; [|discriminate].
-    destruct (Nat.eqb _ _) eqn:El; [|discriminate].
-    rewrite map_length in El. apply Nat.eqb_eq in El.
-    apply build_items in H. destruct H as [l [Hl Hc]]. cbn in Hc. inversion Hc; subst.
+    destruct (coerce_tuple_shape T WF sac _ _ _ H) as [Hi [items [l [k [_ [Hlen [Hz ->]]]]]]].
+    rewrite map_length in Hlen.
     assert (Forall (fun a => forall x y, coerce T W sac a x = Ok y -> coerce T W sac a y = Ok y) ts) as HF.
     { rewrite forallb_forall in U. rewrite Forall_forall in *. intros a Ha. apply IHts; auto. }
-    destruct (zip_res_fixed (coerce T W sac) ts items l HF El Hl) as [H1 H2].
-    unfold coerce_tuple. change CTuple with (class_of (VTuple l)) at 1. rewrite enter_self. cbn.
-    rewrite map_length, H2, Nat.eqb_refl. now rewrite H1.
+    destruct (zip_res_fixed (coerce T W sac) ts items l HF Hlen Hz) as [H1 H2].
+    unfold coerce_tuple. rewrite (enter_inst _ _ Hi). cbn [iter].
+    rewrite map_length, H2, Nat.eqb_refl, H1. reflexivity.
   - eapply coerce_seq_idem; [cbn; tauto|apply IHa, U|exact H].
   - (* dict *)
     apply andb_true_iff in U. destruct U as [Uk Ux].
-    unfold coerce_dict in H.
-    destruct (enter T sac CDict v) as [c|] eqn:E; [|discriminate].
-    destruct v; try discriminate.
-    destruct (dict_res _ _ kv []) as [d|] eqn:Ed; [|discriminate]. inversion H; subst.
+    destruct (coerce_dict_shape T WF sac _ _ _ _ H) as [Hi [g0 [kv [g [d [-> [Hd ->]]]]]]].
     pose proof (dict_res_inv _ _ (IHk Uk) (IHx Ux) kv [] d) as Hinv.
-    destruct Hinv as [Hnd Hfix]; [split; constructor|exact Ed|].
-    unfold coerce_dict. change CDict with (class_of (VDict d)) at 1. rewrite enter_self.
+    destruct Hinv as [Hnd Hfix]; [split; constructor|exact Hd|].
+    unfold coerce_dict. rewrite (enter_inst _ _ Hi).
     now rewrite (dict_res_fixed _ _ d [] Hnd Hfix).
   - destruct fr; (eapply coerce_seq_idem; [cbn; tauto|apply IHa, U|exact H]).
   - (* Optional[...] *)
